@@ -3,6 +3,7 @@
    the caching decision of the repaired tree; `_pinned` definitions model what the pinned tree did. *)
 From Coq Require Import List NArith ZArith Bool.
 From BE Require Import Model.GoTypes Model.GoVal Model.Parsers Model.Index Model.Cache Proofs.CacheProof.
+From BE Require Model.CacheBuild Proofs.CacheBuildProof Proofs.CacheBuildObs.
 Import ListNotations.
 
 (* every holder decodes what it encoded, for every transaction its IndexingBETx can produce *)
@@ -24,6 +25,67 @@ Proof. exact repeated_field_not_cached. Qed.
 (* misses and dropped writes are harmless by construction: a miss or an undecodable record makes the
    builder parse (tryUseIndexingTxCache returns nil), a dropped write only causes a later miss *)
 
+(* THE PROPERTY, over Model/CacheBuild.v: an executable model of buildDocEntries WITH a cache provider
+   (tryUseIndexingTxCache / tryCacheIndexingTx statement by statement: Get by conjunction id, a record with no
+   slot or an undecodable slot is a miss, transactions rebuilt from the record's slots with the stored entry
+   ids, holders taken from the container of the conjunction id's size, one slot per field, Set after parsing).
+   The provider is a state plus an ADVERSARIAL ORACLE: at every call it may evict any entries, answer or
+   miss although the entry is stored, keep or drop a write, and hand the record's slots back in any order
+   (Go map iteration) -- `perm_oracle` only says that a returned record is a permutation of the stored one.
+   pstore_ok st ds p: every stored record was written for a conjunction of ds under st's configuration
+   (any caching threshold) -- true of the empty provider (cold build) and preserved by every build.
+   Then, for every oracle, caching threshold, policy, index kind, container mix and conjunction shape, the
+   cached build produces the same outcomes and an index that answers EVERY query exactly as the plain build. *)
+Theorem C13_cached_build_same_answers : forall o cthr ds st p n q,
+  CacheBuildObs.perm_oracle o -> NoDup (map d_id ds) -> CacheBuildProof.pstore_ok st ds p ->
+  let st_c := fst (fst (fst (CacheBuild.add_documents_cached o cthr (st, p, n) ds))) in
+  let st_p := fst (add_documents false st ds) in
+  snd (CacheBuild.add_documents_cached o cthr (st, p, n) ds) = snd (add_documents false st ds) /\
+  retrieve_hits (build_index st_c) q = retrieve_hits (build_index st_p) q /\
+  retrieve (build_index st_c) q = retrieve (build_index st_p) q.
+Proof. exact CacheBuildObs.cached_build_same_answers_obs. Qed.
+
+(* ... the builder states agree on everything retrieval can observe (`seq`), and the provider is again ok *)
+Theorem C13_cached_build_transparent : forall o cthr ds sp sc p n,
+  CacheBuildObs.perm_oracle o -> NoDup (map d_id ds) -> CacheBuildObs.seq sp sc -> CacheBuildProof.pstore_ok sp ds p ->
+  let '(sc', p', _, outs) := CacheBuild.add_documents_cached o cthr (sc, p, n) ds in
+  outs = snd (add_documents false sp ds) /\ CacheBuildObs.seq (fst (add_documents false sp ds)) sc' /\
+  CacheBuildProof.pstore_ok sc' ds p'.
+Proof. exact CacheBuildObs.cached_build_transparent_obs. Qed.
+
+(* any SEQUENCE of builds sharing one provider (builder Reset, the provider forgetting any subset of its entries,
+   a new oracle and a new caching threshold per round): every round yields the plain build *)
+Theorem C13_any_sequence_of_builds : forall ds, NoDup (map d_id ds) ->
+  forall (rounds : list CacheBuild.round) sp sc p,
+  Forall (fun r => CacheBuildObs.perm_oracle (CacheBuild.r_oracle r)) rounds ->
+  CacheBuildObs.seq sp sc -> CacheBuildProof.pstore_ok sp ds p ->
+  Forall2 CacheBuildObs.round_eq (CacheBuildProof.plain_builds ds sp (length rounds)) (fst (CacheBuild.builds ds sc p rounds)) /\
+  CacheBuildProof.pstore_ok sp ds (snd (CacheBuild.builds ds sc p rounds)).
+Proof. exact CacheBuildObs.builds_transparent_obs. Qed.
+
+Theorem C13_cold_provider_ok : forall st ds, CacheBuildProof.pstore_ok st ds [].
+Proof. exact CacheBuildProof.cold_provider_ok. Qed.
+
+(* when the slots come back in write order the builder states are LITERALLY equal *)
+Theorem C13_cached_build_literally_equal : forall o cthr ds st p n,
+  CacheBuildProof.ordered o -> NoDup (map d_id ds) -> CacheBuildProof.pstore_ok st ds p ->
+  let '(st', p', _, outs) := CacheBuild.add_documents_cached o cthr (st, p, n) ds in
+  (st', outs) = add_documents false st ds /\ CacheBuildProof.pstore_ok st' ds p'.
+Proof. exact CacheBuildProof.cached_build_transparent. Qed.
+
+(* non-vacuity: a warm build with three hits, an unanswered Get followed by a dropped Set and an eviction
+   followed by a re-store equals the plain build (both index kinds);
+   sensitivity: filing a hit under another size than the conjunction id's, or taking entry ids from elsewhere,
+   changes the answers -- the theorem is about exactly these details *)
+Example C13_nonvacuous : forall k,
+  CacheBuildProof.Examples.calls_of (CacheBuildProof.Examples.x_warm k) = 9%nat /\
+  (CacheBuildProof.Examples.st_of (CacheBuildProof.Examples.x_warm k), snd (CacheBuildProof.Examples.x_warm k)) = CacheBuildProof.Examples.x_plain k.
+Proof. exact CacheBuildProof.Examples.warm_build_equals_plain. Qed.
+Example C13_sensitive_to_the_size_used_on_a_hit :
+  retrieve (build_index (CacheBuildProof.Examples.st_of (CacheBuildProof.Examples.x_warm_var CacheBuildProof.Examples.size_plus1 (fun e => e) IKGroups))) CacheBuildProof.Examples.x_q = ROk [12]%Z /\
+  retrieve (build_index (fst (CacheBuildProof.Examples.x_plain IKGroups))) CacheBuildProof.Examples.x_q = ROk [10; 12]%Z.
+Proof. exact CacheBuildProof.Examples.wrong_size_differs. Qed.
+
 (* the pinned tree violated the property (repaired by three fix: commits) *)
 Theorem C13_refuted_pinned_slot_collapse : length (record_of_pinned [tx_in; tx_gt100]) = 1%nat.
 Proof. exact pinned_slot_collapse. Qed.
@@ -33,3 +95,8 @@ Proof. exact pinned_range_lost. Qed.
 Print Assumptions C13_codec_roundtrip.
 Print Assumptions C13_record_reproduces_transactions.
 Print Assumptions C13_repeated_field_not_cached.
+Print Assumptions C13_cached_build_same_answers.
+Print Assumptions C13_cached_build_transparent.
+Print Assumptions C13_any_sequence_of_builds.
+Print Assumptions C13_cold_provider_ok.
+Print Assumptions C13_cached_build_literally_equal.
